@@ -495,7 +495,7 @@ fn accept_syn(
     // Count in-progress (SynReceived) children + ready children
     // against backlog. Linux separates SYN backlog from accept backlog;
     // we collapse them for v1.
-    let in_flight = count_children(k, listener_fd, local);
+    let in_flight = count_children(k, listener_fd);
     let ready = k
         .lookup(listener_fd)
         .unwrap()
@@ -887,21 +887,32 @@ fn find_listener(k: &Kernel, local: SocketAddr) -> Option<Fd> {
     None
 }
 
-/// Count child sockets owned by `listener_fd`'s tuple that are still
+/// Count child sockets owned by `listener_fd` that are still
 /// handshaking (`SynReceived`). Charged against the listener's backlog
-/// alongside the accept-ready queue.
-fn count_children(k: &Kernel, listener_fd: Fd, local: SocketAddr) -> usize {
+/// alongside the accept-ready queue. Matches children the same way
+/// listener teardown does (family + port, and the address unless the
+/// listener is bound to the wildcard), so a wildcard listener counts
+/// its children at every local address.
+fn count_children(k: &Kernel, listener_fd: Fd) -> usize {
+    let Some(lb) = k.sockets.get(listener_fd).and_then(|s| s.bound.as_ref()) else {
+        return 0;
+    };
     k.sockets
-        .connections_on(local)
-        .filter(|(_, fd)| {
-            if *fd == listener_fd {
-                return false;
-            }
-            k.sockets
-                .get(*fd)
-                .and_then(|s| s.tcb.as_ref())
-                .map(|t| t.state == TcpState::SynReceived)
-                .unwrap_or(false)
+        .iter()
+        .filter(|(fd, s)| {
+            *fd != listener_fd
+                && s.tcb
+                    .as_ref()
+                    .map(|t| t.state == TcpState::SynReceived)
+                    .unwrap_or(false)
+                && s.bound
+                    .as_ref()
+                    .map(|b| {
+                        b.domain == lb.domain
+                            && b.local_port == lb.local_port
+                            && (lb.local_addr.is_unspecified() || b.local_addr == lb.local_addr)
+                    })
+                    .unwrap_or(false)
         })
         .count()
 }
